@@ -35,11 +35,29 @@ def gen_cases(rng, n):
 
 def shrink_case(prog, stdin, bad_fn, budget=120):
     """drop commands (programs are whitespace-separated) and shorten stdin while the failure persists"""
+    import time as _t
+    t_end = _t.time() + 90                       # shrinking is a convenience: bounded in evaluations and in wall time
     parts = prog.split()
+    # long programs first lose whole chunks (halves, quarters, ...), then single commands
+    chunk = len(parts) // 2
+    while chunk >= 2 and budget > 0 and _t.time() < t_end:
+        i, removed = 0, False
+        while i < len(parts) and budget > 0 and _t.time() < t_end:
+            cand = parts[:i] + parts[i + chunk:]
+            budget -= 1
+            if cand and bad_fn(" ".join(cand), stdin):
+                parts, removed = cand, True
+            else:
+                i += chunk
+        chunk = chunk // 2 if not removed or chunk > len(parts) // 2 else chunk
+        if not removed:
+            continue
     changed = True
-    while changed and budget > 0:
+    while changed and budget > 0 and _t.time() < t_end:
         changed = False
         for i in range(len(parts)):
+            if budget <= 0 or _t.time() > t_end:
+                break
             cand = parts[:i] + parts[i + 1:]
             budget -= 1
             if cand and bad_fn(" ".join(cand), stdin):
